@@ -104,6 +104,16 @@ package dsl
 //@   requires ast != nil
 //@   invariant 1: t != nil
 //@   ensures result != nil
+// C04: the schema text must tell apart what is encoded differently. A fixed-size array (lengths given) is written
+// without a shape, an array of known rank with one, and named dimensions are part of the model: the compact spelling
+// of `dimensions` (just the rank) is used only when no dimension carries a name or a length.
+//@ observe-args encoding/json.Marshal
+//@ func (ArrayDimensions).MarshalJSON
+//@   property C04
+//@   invariant 0: forall k in 0..rangeindex+1 :: (dims[k].Name == nil && dims[k].Length == nil)
+//@   ensures rank_only_spelling_has_no_names_or_lengths: typeof(lastArg("encoding/json.Marshal", 0)) == int ==> (forall k in 0..len(dims) :: (dims[k].Name == nil && dims[k].Length == nil))
+//@   ensures rank_only_spelling_gives_the_rank: typeof(lastArg("encoding/json.Marshal", 0)) == int ==> lastArg("encoding/json.Marshal", 0).(int) == len(dims)
+
 // A shorthand tail is only another spelling of the expanded form (C13): `T?` is [null, T]; `K->V` is !map {keys: K,
 // values: V}; `T*` / `T*N` is !vector {items: T} / {items: T, length: N} - a written length, zero included, makes
 // the vector fixed exactly as `length:` does; `T[..]` is !array with the written dimensions in the written order.
@@ -135,8 +145,32 @@ package dsl
 //@   requires value != nil
 //@   ensures result1 == nil ==> result0 != nil
 //@   invariant 1: len(vals) * 2 == i && (forall k in 0..len(vals) :: vals[k] != nil)
+// C11/C09: a package is accepted only if every model file in it satisfies the rules. A directory walk that fails
+// (a sub-directory that cannot be read, a file that vanished) has not seen every model file: it is an error of the
+// command, not a log line followed by a model made of the files that could be listed.
+//@ func ParseYamlInDir
+//@   property C11,C09
+//@   ensures an_incomplete_directory_walk_is_an_error: errSeen(filepath.Walk) ==> result1 != nil
 //@ func parseError
 //@   requires node != nil
+// Diagnostics are located: whoever reports an error or a warning hands over the node it is about (both constructors
+// read its position). The evolution checks report through sink closures of type SinkWarningOrError; a call through
+// such a value owes the same thing, also when a protocol was removed and the latest model is empty.
+//@ func validationError
+//@   property C10
+//@   requires node != nil
+//@ func validationWarning
+//@   property C10
+//@   requires node != nil
+//@ funcvalue-pre SinkWarningOrError nonnil
+//@ func validateChanges@saveWarning
+//@   requires node != nil
+//@ func validateChanges@saveError
+//@   requires node != nil
+//@ func validateProtocolChanges
+//@   property C10,C06
+//@ func validateTypeDefinitionChanges
+//@   property C10,C06
 // Expression nodes carry the position of their token (1-based, relative to the expression text); ParseExpression
 // then shifts it by the host node's position. A node without a position cannot produce a located diagnostic.
 //@ func nodeMetaFromPosition
